@@ -148,6 +148,19 @@ pub const ROOTS: &[&str] = &[
     "4r1k1/8/8/8/8/5n2/5P2/3QKB2 w - - 0 1", "4r1k1/8/8/8/4n3/8/5P2/3QKB2 b - - 0 1",
     "rnbk1b1r/pp3ppp/2p5/4q1B1/4n3/8/PPP2PPP/2KR1BNR b - - 0 1", "rnb1kb1r/pp3ppp/2p5/4q3/4n3/3Q4/PPPB1PPP/2KR1BNR w kq - 0 1",
     "k7/n7/2B5/8/8/8/8/RR5K b - - 0 1", "rr5k/8/8/8/8/2b5/N7/K7 w - - 0 1", "rr5k/8/8/8/8/8/N7/K3b3 b - - 0 1",
+    // castling rights while in double check (castling must not be generated), all four castlings
+    "4r1k1/8/8/8/8/3n4/8/4K2R w K - 0 1", "4r1k1/8/8/8/8/5n2/8/R3K3 w Q - 0 1", "4k2r/8/3N4/8/8/8/8/4R1K1 b k - 0 1", "r3k3/8/5N2/8/8/8/8/4R1K1 b q - 0 1",
+    "4r1k1/8/8/4n3/8/8/8/R3K2R b KQ - 0 1", "r3k2r/8/8/8/4N3/8/8/4R1K1 w kq - 0 1",
+    // enemy king next to the castling path (g2 / b2 / c2 / g7 / b7 / c7)
+    "8/8/8/8/8/8/6k1/4K2R w K - 0 1", "8/8/8/8/8/8/1k6/R3K3 w Q - 0 1", "8/8/8/8/8/8/2k5/R3K3 w Q - 0 1", "4k2r/6K1/8/8/8/8/8/8 b k - 0 1", "r3k3/1K6/8/8/8/8/8/8 b q - 0 1", "r3k3/2K5/8/8/8/8/8/8 b q - 0 1",
+    // a double push that checks with the pushed pawn while an enemy pawn stands beside the arrival square (en passant answers the check)
+    "8/8/8/3k4/3p4/8/4P3/4K3 w - - 0 1", "4k3/2p5/8/1P6/1K6/8/8/8 b - - 0 1", "8/8/8/5k2/5p2/8/4P1P1/4K3 w - - 0 1",
+    // a double push landing between two enemy pawns with king and rook / queen of the two sides on that rank (both captures stay legal)
+    "7k/3p4/8/K1P1P2r/8/8/8/8 b - - 0 1", "8/8/8/8/Q2p1p1k/8/4P3/K7 w - - 0 1", "7k/3p4/8/K1P4r/8/8/8/8 b - - 0 1",
+    // the capturer is pinned along the very diagonal of the en-passant capture (capture legal)
+    "8/k7/8/8/3p4/8/4P3/4K1B1 w - - 0 1", "4k1b1/4p3/8/3P4/8/8/K7/8 b - - 0 1",
+    // a piece can move to the empty en-passant target square ("Nxd6" denotes no move)
+    "rnbqkbnr/1pp1ppp1/p7/3pP2p/4N3/8/PPPP1PPP/R1BQKBNR w KQkq d6 0 5",
 ];
 
 pub fn roots() -> Vec<Board> { ROOTS.iter().filter_map(|f| Board::from_str(f).ok()).collect() }
